@@ -3,9 +3,25 @@ import OnetVerif.Shapes
 /-! Property C07 — no peer input can crash, wedge or silence a server. -/
 namespace C07
 
-theorem deliver_not_panic (s : Srv) (to : Tok) (frm : Frm) (m3 : Bool) : (deliver s to frm m3).1 ≠ .panic := by
+/-! ### no panic -/
+theorem handOver_not_panic (s : Srv) (t : TRef) (frm : Frm) (b : Body) : (handOver s t frm b).1 ≠ .panic := by
+  unfold handOver; simp only; split <;> simp
+
+theorem deliver_not_panic (s : Srv) (to : Tok) (frm : Frm) (b : Body) : (deliver s to frm b).1 ≠ .panic := by
   unfold deliver
-  cases to <;> cases frm <;> simp <;> split <;> simp
+  cases to with
+  | none => simp
+  | zero => simp
+  | badNode => simp
+  | done =>
+    simp only
+    split
+    · simp
+    · split <;> exact handOver_not_panic _ _ _ _
+  | run => simp only; split <;> exact handOver_not_panic _ _ _ _
+  | fresh t => simp only; split <;> exact handOver_not_panic _ _ _ _
+  | badProto t => simp only; split <;> simp
+  | badProtoNew t => simp
 
 theorem sendTree_not_panic (s : Srv) (tm : Option TM) (ro : Option Ro) : (sendTree s tm ro).1 ≠ .panic := by
   unfold sendTree
@@ -24,10 +40,10 @@ theorem sendTree_not_panic (s : Srv) (tm : Option TM) (ro : Option Ro) : (sendTr
         · split <;> simp
 
 /-- **no panic**: in every server state, no envelope — whatever its type and field values —
-makes the overlay panic. -/
+makes the overlay or the instance it is handed to panic. -/
 theorem c07_no_panic (s : Srv) (e : Env) : (process s e).1 ≠ .panic := by
   cases e with
-  | proto to frm b m3 =>
+  | proto to frm b =>
     simp only [process]
     split
     · simp
@@ -49,65 +65,197 @@ theorem c07_no_panic (s : Srv) (e : Env) : (process s e).1 ≠ .panic := by
         · simp
   | reqRoster r => simp [process]
   | sendRoster ro => simp only [process]; split <;> simp
-  | config w => simp [process]
+  | config w d =>
+    simp only [process]
+    split
+    · simp
+    · split <;> simp
 
-theorem deliver_lock (s : Srv) (to : Tok) (frm : Frm) (m3 : Bool) : (deliver s to frm m3).2.treeLock = s.treeLock := by
-  unfold deliver
-  cases to <;> cases frm <;> simp <;> split <;> simp
+/-- no step of any finite sequence panics -/
+theorem c07_no_panic_run (s : Srv) (pre : List Env) (e : Env) : (process (runEnvs s pre) e).1 ≠ .panic :=
+  c07_no_panic _ e
 
-theorem storeAndFlush_lock (s : Srv) (t : TRef) (r : RoRef) : (storeAndFlush s t r).treeLock = s.treeLock := rfl
+/-! ### a generic way to carry a property of the state through `process`
 
-theorem sendTree_lock (s : Srv) (tm : Option TM) (ro : Option Ro) :
-    (sendTree s tm ro).2.treeLock = s.treeLock := by
-  unfold sendTree
+`Keeps P`: every building block of `process` keeps `P`; then `process` does. -/
+structure Stable (P : Srv → Prop) : Prop where
+  hand : ∀ s t frm b, P s → P (handOver s t frm b).2
+  crea : ∀ s to, P s → P (created s to)
+  cln : ∀ s t, P s → P (clean s t)
+  listK : ∀ s, P s → s.armed .K = false → P { s with doneLive := true } ∧ P { s with run := true }
+  listT : ∀ s t, P s → s.armed t = false → P { s with fresh := upd s.fresh t true }
+  mark : ∀ s, P s → (∀ t, P { s with protoFailed := upd s.protoFailed t true }) ∧ P { s with junkMarks := s.junkMarks + 1 }
+  refresh : ∀ s t, P s → P { s with armed := upd s.armed t false }
+  park : ∀ s t x, P s → s.slot t ≠ .present →
+      P { s with armed := upd s.armed t false, parked := upd s.parked t (s.parked t ++ [x]) } ∧
+      (s.slot t = .absent → P { s with armed := upd s.armed t false, parked := upd s.parked t (s.parked t ++ [x]), slot := upd s.slot t .requested, asks := s.asks + 1 })
+  store : ∀ s t r, P s → s.slot t ≠ .present →
+      P { s with slot := upd s.slot t .present, armed := upd s.armed t false, parked := upd s.parked t [], treeRo := upd s.treeRo t r }
+  reply : ∀ s, P s → P { s with replies := s.replies + 1 }
+  ptm : ∀ s tm, P s → P { s with pendingTM := s.pendingTM ++ [tm], asks := s.asks + 1 }
+  ptmDrop : ∀ s (f : TM → Bool), P s → P { s with treeLock := 0, pendingTM := s.pendingTM.filter f }
+  cfg : ∀ s d, P s → P { s with cfgJunk := s.cfgJunk + 1 } ∧ P { s with cfgHas := upd s.cfgHas d true }
+
+theorem created_armed (s : Srv) (to : Tok) : (created s to).armed (treeOf to) = false := by
+  unfold created
+  cases h : destOf to <;> simp [upd]
+
+theorem Stable.deliver {P : Srv → Prop} (h : Stable P) (s : Srv) (to : Tok) (frm : Frm) (b : Body) (hp : P s) :
+    P (deliver s to frm b).2 := by
+  unfold C07.deliver
+  cases to with
+  | none => exact hp
+  | zero => exact hp
+  | badNode => exact hp
+  | done =>
+    simp only
+    split
+    · exact h.cln _ _ hp
+    · split
+      · exact h.hand _ _ _ _ hp
+      · exact h.hand _ _ _ _ (h.listK _ (h.crea _ _ hp) (created_armed s .done)).1
+  | run =>
+    simp only
+    split
+    · exact h.hand _ _ _ _ hp
+    · exact h.hand _ _ _ _ (h.listK _ (h.crea _ _ hp) (created_armed s .run)).2
+  | fresh t =>
+    simp only
+    split
+    · exact h.hand _ _ _ _ hp
+    · exact h.hand _ _ _ _ (h.listT _ t (h.crea _ _ hp) (created_armed s (.fresh t)))
+  | badProto t =>
+    simp only
+    split
+    · exact h.cln _ _ hp
+    · exact h.cln _ _ ((h.mark _ (h.crea _ _ hp)).1 t)
+  | badProtoNew t =>
+    simp only
+    exact h.cln _ _ (h.mark _ (h.crea _ _ hp)).2
+
+theorem Stable.transmitFound {P : Srv → Prop} (h : Stable P) (s : Srv) (to : Tok) (frm : Frm) (b : Body) (hp : P s) :
+    P (transmitFound s to frm b).2 := h.deliver _ _ _ _ (h.refresh _ _ hp)
+
+theorem Stable.flush {P : Srv → Prop} (h : Stable P) (l : List (Tok × Frm × Body)) (s : Srv) (hp : P s) :
+    P (flush s l) := by
+  induction l generalizing s with
+  | nil => exact hp
+  | cons x l ih =>
+    obtain ⟨to, frm, b⟩ := x
+    exact ih _ (h.transmitFound _ _ _ _ hp)
+
+theorem Stable.storeAndFlush {P : Srv → Prop} (h : Stable P) (s : Srv) (t : TRef) (r : RoRef) (hp : P s)
+    (hs : s.slot t ≠ .present) : P (storeAndFlush s t r) :=
+  h.flush _ _ (h.store _ _ _ hp hs)
+
+theorem Stable.sendTree {P : Srv → Prop} (h : Stable P) (s : Srv) (tm : Option TM) (ro : Option Ro) (hp : P s) :
+    P (sendTree s tm ro).2 := by
+  unfold C07.sendTree
   cases tm with
-  | none => simp
+  | none => exact hp
   | some tm =>
     simp only
     split
-    · simp
+    · exact hp
     · cases ro with
-      | none => simp
+      | none => exact hp
       | some ro =>
         simp only
         split
-        · simp
-        · split <;> simp [storeAndFlush_lock]
+        · exact hp
+        · rename_i hr
+          split
+          · exact h.storeAndFlush _ _ _ hp (by simp at hr; simp [hr])
+          · exact hp
+
+theorem Stable.fold {P : Srv → Prop} (h : Stable P) (ro : Ro) (l : List TM) (s : Srv) (hp : P s) :
+    P (l.foldl (fun acc tm =>
+        if acc.slot tm.id = .present then acc
+        else if makeTree tm ro then C07.storeAndFlush acc tm.id ro.id else acc) s) := by
+  induction l generalizing s with
+  | nil => exact hp
+  | cons tm l ih =>
+    simp only [List.foldl_cons]
+    apply ih
+    split
+    · exact hp
+    · rename_i hs
+      split
+      · exact h.storeAndFlush _ _ _ hp hs
+      · exact hp
+
+/-- every property that the building blocks keep is kept by every envelope -/
+theorem Stable.process {P : Srv → Prop} (h : Stable P) (s : Srv) (e : Env) (hp : P s) : P (process s e).2 := by
+  cases e with
+  | proto to frm b =>
+    simp only [C07.process]
+    split
+    · exact hp
+    · split
+      · exact hp
+      · split
+        · exact h.transmitFound _ _ _ _ hp
+        · rename_i hs
+          have hk := h.park s (treeOf to) (to, frm, b) hp hs
+          split
+          · rename_i ha
+            exact hk.2 (by simpa using ha)
+          · exact hk.1
+  | reqTree t v => simp only [C07.process]; split; exact h.reply _ hp; exact hp
+  | respTree tm ro => exact h.sendTree _ _ _ hp
+  | treeMarshal tm =>
+    simp only [C07.process]
+    split
+    · exact hp
+    · split
+      · exact hp
+      · split
+        · exact h.sendTree _ _ _ hp
+        · exact h.ptm _ _ hp
+  | reqRoster r => exact h.reply _ hp
+  | sendRoster ro =>
+    simp only [C07.process]
+    split
+    · exact hp
+    · exact h.ptmDrop _ _ (h.fold ro _ s hp)
+  | config w d =>
+    simp only [C07.process]
+    split
+    · exact hp
+    · split
+      · exact (h.cfg _ d hp).1
+      · exact (h.cfg _ d hp).2
+
+theorem Stable.run {P : Srv → Prop} (h : Stable P) (es : List Env) (s : Srv) (hp : P s) : P (runEnvs s es) := by
+  induction es generalizing s with
+  | nil => exact hp
+  | cons e es ih => exact ih _ (h.process s e hp)
+
+/-! ### no lock left held -/
+theorem stable_lock : Stable (fun s => s.treeLock = 0) := by
+  constructor
+  · intro s t frm b h; unfold handOver; simp only; split <;> exact h
+  · intro s to h; unfold created; cases destOf to <;> exact h
+  · intro s t h; unfold clean; split <;> exact h
+  · intro s h _; exact ⟨h, h⟩
+  · intro s t h _; exact h
+  · intro s h; exact ⟨fun _ => h, h⟩
+  · intro s t h; exact h
+  · intro s t x h _; exact ⟨h, fun _ => h⟩
+  · intro s t r h _; exact h
+  · intro s h; exact h
+  · intro s tm h; exact h
+  · intro s f _; rfl
+  · intro s d h; exact ⟨h, h⟩
 
 /-- **no lock left held**: after every envelope the pending-tree lock is free again. -/
-theorem c07_locks_released (s : Srv) (e : Env) (h : s.treeLock = 0) : (process s e).2.treeLock = 0 := by
-  cases e with
-  | proto to frm b m3 =>
-    simp only [process]
-    split
-    · exact h
-    · split
-      · exact h
-      · split
-        · rw [deliver_lock]; exact h
-        · split <;> simpa using h
-  | reqTree t v => simp only [process]; split <;> simpa using h
-  | respTree tm ro => simp only [process]; rw [sendTree_lock]; exact h
-  | treeMarshal tm =>
-    simp only [process]
-    split
-    · exact h
-    · split
-      · exact h
-      · split
-        · rw [sendTree_lock]; exact h
-        · simpa using h
-  | reqRoster r => simpa [process] using h
-  | sendRoster ro => simp only [process]; split <;> simp [h]
-  | config w => simpa [process] using h
+theorem c07_locks_released (s : Srv) (e : Env) (h : s.treeLock = 0) : (process s e).2.treeLock = 0 :=
+  stable_lock.process s e h
 
 theorem c07_locks_released_run (es : List Env) (s : Srv) (h : s.treeLock = 0) :
-    (runEnvs s es).treeLock = 0 := by
-  induction es generalizing s with
-  | nil => exact h
-  | cons e es ih => exact ih _ (c07_locks_released s e h)
+    (runEnvs s es).treeLock = 0 := stable_lock.run es s h
 
-/-! a tree that is present is never removed or replaced by an envelope -/
+/-! ### a tree that is present is never removed or replaced by an envelope -/
 theorem upd_present {f : TRef → Slot} {t x : TRef} {v : Slot} (h : f x = .present)
     (hv : v = .present ∨ t ≠ x) : upd f t v x = .present := by
   unfold upd
@@ -117,117 +265,411 @@ theorem upd_present {f : TRef → Slot} {t x : TRef} {v : Slot} (h : f x = .pres
     · exact absurd e.symm hv
   · simp [e, h]
 
-theorem deliver_slot (s : Srv) (to : Tok) (frm : Frm) (m3 : Bool) : (deliver s to frm m3).2.slot = s.slot := by
-  unfold deliver
-  cases to <;> cases frm <;> simp <;> split <;> simp
-
-theorem storeAndFlush_keeps (s : Srv) (t x : TRef) (r : RoRef) (h : s.slot x = .present) :
-    (storeAndFlush s t r).slot x = .present := by
-  simp only [storeAndFlush]
-  exact upd_present h (.inl rfl)
-
-theorem sendTree_keeps (s : Srv) (tm : Option TM) (ro : Option Ro) (x : TRef) (h : s.slot x = .present) :
-    (sendTree s tm ro).2.slot x = .present := by
-  unfold sendTree
-  cases tm with
-  | none => simpa
-  | some tm =>
-    simp only
-    split
-    · simpa
-    · cases ro with
-      | none => simpa
-      | some ro =>
-        simp only
-        split
-        · simpa
-        · split
-          · exact storeAndFlush_keeps s tm.id x _ h
-          · simpa
-
-theorem foldl_keeps (ro : Ro) (l : List TM) (s : Srv) (x : TRef) (h : s.slot x = .present) :
-    (l.foldl (fun acc tm =>
-        if acc.slot tm.id = .present then acc
-        else if makeTree tm ro then storeAndFlush acc tm.id ro.id else acc) s).slot x = .present := by
-  induction l generalizing s with
-  | nil => simpa
-  | cons tm l ih =>
-    simp only [List.foldl_cons]
-    apply ih
-    split
-    · exact h
-    · split
-      · exact storeAndFlush_keeps s tm.id x _ h
-      · exact h
+theorem stable_present (x : TRef) : Stable (fun s => s.slot x = .present) := by
+  constructor
+  · intro s t frm b h; unfold handOver; simp only; split <;> exact h
+  · intro s to h; unfold created; cases destOf to <;> exact h
+  · intro s t h; unfold clean; split <;> exact h
+  · intro s h _; exact ⟨h, h⟩
+  · intro s t h _; exact h
+  · intro s h; exact ⟨fun _ => h, h⟩
+  · intro s t h; exact h
+  · intro s t y h hs
+    refine ⟨h, fun ha => ?_⟩
+    exact upd_present h (.inr (by intro e; subst e; rw [h] at ha; cases ha))
+  · intro s t r h _; exact upd_present h (.inl rfl)
+  · intro s h; exact h
+  · intro s tm h; exact h
+  · intro s f h; exact h
+  · intro s d h; exact ⟨h, h⟩
 
 /-- **a known tree cannot be taken away or replaced** by any envelope -/
 theorem c07_present_stays (s : Srv) (e : Env) (x : TRef) (h : s.slot x = .present) :
-    (process s e).2.slot x = .present := by
-  cases e with
-  | proto to frm b m3 =>
-    simp only [process]
-    split
-    · exact h
-    · split
-      · exact h
-      · split
-        · rw [deliver_slot]; exact h
-        · rename_i hnp
-          split
-          · simp only
-            apply upd_present h
-            right; intro e; subst e; exact hnp h
-          · exact h
-  | reqTree t v => simp only [process]; split <;> simpa using h
-  | respTree tm ro => exact sendTree_keeps s tm ro x h
-  | treeMarshal tm =>
-    simp only [process]
-    split
-    · exact h
-    · split
-      · exact h
-      · split
-        · exact sendTree_keeps _ _ _ x h
-        · simpa using h
-  | reqRoster r => simpa [process] using h
-  | sendRoster ro =>
-    simp only [process]
-    split
-    · exact h
-    · simp only
-      exact foldl_keeps ro _ s x h
-  | config w => simpa [process] using h
+    (process s e).2.slot x = .present := (stable_present x).process s e h
 
 theorem c07_present_stays_run (es : List Env) (s : Srv) (x : TRef) (h : s.slot x = .present) :
-    (runEnvs s es).slot x = .present := by
-  induction es generalizing s with
-  | nil => exact h
-  | cons e es ih => exact ih _ (c07_present_stays s e x h)
+    (runEnvs s es).slot x = .present := (stable_present x).run es s h
 
-/-- **still serves**: after *any finite sequence* of envelopes of any type with any field
-values, in any of the starting states, (1) a legitimate protocol message of a new run on the
-known tree is handed to its instance and reaches the handler, (2) a legitimate tree request is
-answered, (3) a roster request is answered, and nothing panics on the way. -/
+/-! ### no envelope schedules the removal of a tree that an instance is using -/
+def ListedSafe (s : Srv) : Prop := ∀ t, listedOn s t = true → s.armed t = false
+
+theorem upd_false_of {f : TRef → Bool} {t x : TRef} (h : f x = false) : upd f t false x = false := by
+  unfold upd; split <;> simp [h]
+
+theorem stable_listed : Stable ListedSafe := by
+  constructor
+  · intro s t frm b h; unfold handOver; simp only; split <;> exact h
+  · intro s to h
+    unfold created
+    cases destOf to
+    · intro t ht; exact upd_false_of (h t ht)
+    · intro t ht; exact upd_false_of (h t ht)
+  · intro s t h
+    unfold clean
+    split
+    · exact h
+    · rename_i hn
+      intro x hx
+      have hx' : listedOn s x = true := hx
+      have : x ≠ t := by intro e; subst e; exact hn hx'
+      simp [upd, this, h x hx']
+  · intro s h hk
+    constructor
+    · intro t ht
+      cases t with
+      | K => exact hk
+      | R => exact h .R ht
+      | U => exact h .U ht
+      | Z => exact h .Z ht
+    · intro t ht
+      cases t with
+      | K => exact hk
+      | R => exact h .R ht
+      | U => exact h .U ht
+      | Z => exact h .Z ht
+  · intro s t h ha x hx
+    by_cases e : x = t
+    · subst e; exact ha
+    · apply h x
+      cases x <;> cases t <;> simp_all [listedOn, upd]
+  · intro s h; exact ⟨fun _ => h, h⟩
+  · intro s t h x hx; exact upd_false_of (h x hx)
+  · intro s t y h _
+    exact ⟨fun x hx => upd_false_of (h x hx), fun _ x hx => upd_false_of (h x hx)⟩
+  · intro s t r h _ x hx; exact upd_false_of (h x hx)
+  · intro s h; exact h
+  · intro s tm h; exact h
+  · intro s f h; exact h
+  · intro s d h; exact ⟨h, h⟩
+
+/-- **no peer input schedules the removal of a tree an instance is using**: in every state reached by any
+sequence of envelopes, a tree with a listed instance has no removal scheduled (messages for protocols the
+server does not have, for finished tokens, … schedule it only for trees nobody uses). -/
+theorem c07_used_tree_not_scheduled (es : List Env) (s : Srv) (h : ListedSafe s) : ListedSafe (runEnvs s es) :=
+  stable_listed.run es s h
+
+theorem listedSafe_init : ListedSafe {} := by intro t _; rfl
+
+/-! ### what is parked is either still parked or its tree has arrived -/
+def ParkedClean (s : Srv) : Prop := ∀ t, s.slot t = .present → s.parked t = []
+
+theorem stable_parkedClean : Stable ParkedClean := by
+  constructor
+  · intro s t frm b h; unfold handOver; simp only; split <;> exact h
+  · intro s to h; unfold created; cases destOf to <;> exact h
+  · intro s t h; unfold clean; split <;> exact h
+  · intro s h _; exact ⟨h, h⟩
+  · intro s t h _; exact h
+  · intro s h; exact ⟨fun _ => h, h⟩
+  · intro s t h; exact h
+  · intro s t y h hs
+    constructor
+    · intro x hx
+      have hxt : x ≠ t := by intro e; subst e; exact hs hx
+      simp [upd, hxt, h x hx]
+    · intro _ x hx
+      have hxt : x ≠ t := by intro e; subst e; simp [upd] at hx
+      simp only [upd, hxt, if_false] at hx ⊢
+      exact h x hx
+  · intro s t r h _ x hx
+    by_cases e : x = t
+    · subst e; simp [upd]
+    · simp only [upd, e, if_false] at hx ⊢
+      exact h x hx
+  · intro s h; exact h
+  · intro s tm h; exact h
+  · intro s f h; exact h
+  · intro s d h; exact ⟨h, h⟩
+
+theorem stable_kept (x : Tok × Frm × Body) (t : TRef) : Stable (fun s => x ∈ s.parked t ∨ s.slot t = .present) := by
+  constructor
+  · intro s t' frm b h; unfold handOver; simp only; split <;> exact h
+  · intro s to h; unfold created; cases destOf to <;> exact h
+  · intro s t' h; unfold clean; split <;> exact h
+  · intro s h _; exact ⟨h, h⟩
+  · intro s t' h _; exact h
+  · intro s h; exact ⟨fun _ => h, h⟩
+  · intro s t' h; exact h
+  · intro s t' y h hs
+    have key : x ∈ upd s.parked t' (s.parked t' ++ [y]) t ∨ s.slot t = .present := by
+      rcases h with h | h
+      · left
+        by_cases e : t = t'
+        · subst e; simp [upd, h]
+        · simp [upd, e, h]
+      · exact .inr h
+    refine ⟨key, fun ha => ?_⟩
+    rcases key with k | k
+    · exact .inl k
+    · right; exact upd_present k (.inr (by intro e; subst e; rw [k] at ha; cases ha))
+  · intro s t' r h _
+    by_cases e : t = t'
+    · subst e; right; simp [upd]
+    · rcases h with h | h
+      · left; simp [upd, e, h]
+      · right; simp [upd, e, h]
+  · intro s h; exact h
+  · intro s tm h; exact h
+  · intro s f h; exact h
+  · intro s d h; exact ⟨h, h⟩
+
+/-- **a parked message is not lost**: whatever envelopes follow, a protocol message parked for a tree
+stays parked until that tree is stored (and the parked messages flushed). -/
+theorem c07_parked_kept (es : List Env) (s : Srv) (x : Tok × Frm × Body) (t : TRef) (h : x ∈ s.parked t) :
+    x ∈ (runEnvs s es).parked t ∨ (runEnvs s es).slot t = .present :=
+  (stable_kept x t).run es s (.inl h)
+
+/-! the flush of parked messages: how many reach the protocol -/
+def b2n (b : Bool) : Nat := if b then 1 else 0
+
+/-- does a parked message reach the protocol when its tree arrives? (`dm`: the `done` token is marked) -/
+def dcount (dm : Bool) : Tok × Frm × Body → Nat
+  | (.run, frm, b) => b2n (reader .K frm b)
+  | (.fresh t, frm, b) => b2n (reader t frm b)
+  | (.done, frm, b) => if dm then 0 else b2n (reader .K frm b)
+  | _ => 0
+
+theorem handOver_delivered (s : Srv) (t : TRef) (frm : Frm) (b : Body) :
+    (handOver s t frm b).2.delivered = s.delivered + b2n (reader t frm b) ∧
+    (handOver s t frm b).2.doneMark = s.doneMark ∧ (handOver s t frm b).2.slot = s.slot ∧
+    (handOver s t frm b).2.parked = s.parked := by
+  unfold handOver
+  cases h : reader t frm b <;> simp [b2n, h]
+
+theorem created_same (s : Srv) (to : Tok) :
+    (created s to).delivered = s.delivered ∧ (created s to).doneMark = s.doneMark ∧
+    (created s to).slot = s.slot ∧ (created s to).parked = s.parked := by
+  unfold created; cases destOf to <;> simp
+
+theorem clean_same (s : Srv) (t : TRef) :
+    (clean s t).delivered = s.delivered ∧ (clean s t).doneMark = s.doneMark ∧
+    (clean s t).slot = s.slot ∧ (clean s t).parked = s.parked := by
+  unfold clean; split <;> simp
+
+theorem handOver_via (X s : Srv) (t : TRef) (frm : Frm) (b : Body) (hd : X.delivered = s.delivered)
+    (hm : X.doneMark = s.doneMark) (hs : X.slot = s.slot) (hp : X.parked = s.parked) :
+    (handOver X t frm b).2.delivered = s.delivered + b2n (reader t frm b) ∧
+    (handOver X t frm b).2.doneMark = s.doneMark ∧ (handOver X t frm b).2.slot = s.slot ∧
+    (handOver X t frm b).2.parked = s.parked := by
+  have := handOver_delivered X t frm b
+  rw [hd, hm, hs, hp] at this; exact this
+
+theorem clean_via (X s : Srv) (t : TRef) (hd : X.delivered = s.delivered)
+    (hm : X.doneMark = s.doneMark) (hs : X.slot = s.slot) (hp : X.parked = s.parked) :
+    (clean X t).delivered = s.delivered + 0 ∧ (clean X t).doneMark = s.doneMark ∧
+    (clean X t).slot = s.slot ∧ (clean X t).parked = s.parked := by
+  have := clean_same X t
+  rw [hd, hm, hs, hp] at this; simpa using this
+
+theorem transmitFound_delivered (s : Srv) (to : Tok) (frm : Frm) (b : Body) :
+    (transmitFound s to frm b).2.delivered = s.delivered + dcount s.doneMark (to, frm, b) ∧
+    (transmitFound s to frm b).2.doneMark = s.doneMark ∧ (transmitFound s to frm b).2.slot = s.slot ∧
+    (transmitFound s to frm b).2.parked = s.parked := by
+  unfold transmitFound deliver
+  cases to with
+  | none => simp [dcount]
+  | zero => simp [dcount]
+  | badNode => simp [dcount]
+  | done =>
+    by_cases hd : s.doneMark = true
+    · have hd2 : ({ s with armed := upd s.armed (treeOf .done) false } : Srv).doneMark = true := hd
+      rw [if_pos hd2]
+      simp only [dcount]
+      rw [if_pos hd]
+      exact clean_via { s with armed := upd s.armed (treeOf .done) false } s .K rfl rfl rfl rfl
+    · have hd2 : ¬ ({ s with armed := upd s.armed (treeOf .done) false } : Srv).doneMark = true := hd
+      rw [if_neg hd2]
+      simp only [dcount]
+      rw [if_neg hd]
+      split
+      · exact handOver_via { s with armed := upd s.armed (treeOf .done) false } s .K frm b rfl rfl rfl rfl
+      · exact handOver_via { created { s with armed := upd s.armed (treeOf .done) false } .done with doneLive := true }
+          s .K frm b (created_same _ _).1 (created_same _ _).2.1 (created_same _ _).2.2.1 (created_same _ _).2.2.2
+  | run =>
+    simp only [dcount]
+    split
+    · exact handOver_via _ s .K frm b rfl rfl rfl rfl
+    · exact handOver_via _ s .K frm b (created_same _ _).1 (created_same _ _).2.1 (created_same _ _).2.2.1
+        (created_same _ _).2.2.2
+  | fresh t =>
+    simp only [dcount]
+    split
+    · exact handOver_via _ s t frm b rfl rfl rfl rfl
+    · exact handOver_via _ s t frm b (created_same _ _).1 (created_same _ _).2.1 (created_same _ _).2.2.1
+        (created_same _ _).2.2.2
+  | badProto t =>
+    simp only [dcount]
+    split
+    · exact clean_via _ s t rfl rfl rfl rfl
+    · exact clean_via _ s t (created_same _ _).1 (created_same _ _).2.1 (created_same _ _).2.2.1
+        (created_same _ _).2.2.2
+  | badProtoNew t =>
+    simp only [dcount]
+    exact clean_via _ s t (created_same _ _).1 (created_same _ _).2.1 (created_same _ _).2.2.1
+        (created_same _ _).2.2.2
+
+theorem flush_delivered (l : List (Tok × Frm × Body)) (s : Srv) :
+    (flush s l).delivered = s.delivered + (l.map (dcount s.doneMark)).sum ∧
+    (flush s l).slot = s.slot ∧ (flush s l).parked = s.parked := by
+  induction l generalizing s with
+  | nil => simp [flush]
+  | cons x l ih =>
+    obtain ⟨to, frm, b⟩ := x
+    simp only [flush, List.map_cons, List.sum_cons]
+    have h := transmitFound_delivered s to frm b
+    have := ih (transmitFound s to frm b).2
+    rw [h.1, h.2.1, h.2.2.1, h.2.2.2] at this
+    refine ⟨by omega, this.2.1, this.2.2⟩
+
+/-! ### still serves -/
+def legitKinds : List Body := [.m3, .m4, .m1, .m2]
+
+/-- the legitimate tree response for the requested tree R -/
+def legitResp : Env := .respTree (some ⟨.R, .roR, .good⟩) (some ⟨.roR, true, true⟩)
+
+theorem handOver_fst (s : Srv) (t : TRef) (frm : Frm) (b : Body) :
+    (handOver s t frm b).1 = if reader t frm b then .ok else .ignored := by
+  unfold handOver; simp only; split <;> rfl
+
+theorem transmitFound_fst_fresh (s : Srv) (t : TRef) (frm : Frm) (b : Body) :
+    (transmitFound s (.fresh t) frm b).1 = if reader t frm b then .ok else .ignored := by
+  unfold transmitFound deliver; simp only; split <;> exact handOver_fst _ _ _ _
+
+theorem transmitFound_fst_run (s : Srv) (frm : Frm) (b : Body) :
+    (transmitFound s .run frm b).1 = if reader .K frm b then .ok else .ignored := by
+  unfold transmitFound deliver; simp only; split <;> exact handOver_fst _ _ _ _
+
+theorem legit_reader (b : Body) (hb : b ∈ legitKinds) : reader .K .member b = true ∧ b ≠ .garbage := by
+  simp only [legitKinds, List.mem_cons, List.mem_nil_iff, or_false] at hb
+  rcases hb with rfl | rfl | rfl | rfl <;> decide
+
+/-- **still serves**: after *any finite sequence* of envelopes of any type with any field values, from
+any starting state in which the tree K is known, (1) a legitimate protocol message of a new run on K —
+of EVERY kind the protocol registers: plain or aggregated, handler or channel — is handed to its
+instance and reaches the protocol, (2) so does a legitimate message for the instance that was
+running, (3) a legitimate tree request (current or old version) is answered, (4) a roster request is
+answered. -/
 theorem c07_still_serves (es : List Env) (s0 : Srv) (hK : s0.slot .K = .present) :
     let s := runEnvs s0 es
-    (process s (.proto (.fresh .K) .member true true)).1 = .ok ∧
-    (process s (.proto (.fresh .K) .member true true)).2.delivered = s.delivered + 1 ∧
-    (process s (.reqTree .K false)).2.replies = s.replies + 1 ∧
-    (process s (.reqRoster .roK)).2.replies = s.replies + 1 := by
+    (∀ b ∈ legitKinds, (process s (.proto (.fresh .K) .member b)).1 = .ok ∧
+        (process s (.proto (.fresh .K) .member b)).2.delivered = s.delivered + 1) ∧
+    (∀ b ∈ legitKinds, (process s (.proto .run .member b)).1 = .ok ∧
+        (process s (.proto .run .member b)).2.delivered = s.delivered + 1) ∧
+    (∀ v0, (process s (.reqTree .K v0)).1 = .ok ∧ (process s (.reqTree .K v0)).2.replies = s.replies + 1) ∧
+    (∀ r, (process s (.reqRoster r)).1 = .ok ∧ (process s (.reqRoster r)).2.replies = s.replies + 1) := by
   have hp := c07_present_stays_run es s0 .K hK
   simp only
   generalize runEnvs s0 es = s at *
   refine ⟨?_, ?_, ?_, ?_⟩
-  · simp [process, treeOf, hp, deliver]
-  · simp [process, treeOf, hp, deliver]
-  · simp [process, hp]
-  · simp [process]
+  · intro b hb
+    obtain ⟨hr, hg⟩ := legit_reader b hb
+    have e : process s (.proto (.fresh .K) .member b) = transmitFound s (.fresh .K) .member b := by
+      simp [process, treeOf, hp, hg]
+    rw [e, transmitFound_fst_fresh, (transmitFound_delivered s (.fresh .K) .member b).1]
+    simp [hr, dcount, b2n]
+  · intro b hb
+    obtain ⟨hr, hg⟩ := legit_reader b hb
+    have e : process s (.proto .run .member b) = transmitFound s .run .member b := by
+      simp [process, treeOf, hp, hg]
+    rw [e, transmitFound_fst_run, (transmitFound_delivered s .run .member b).1]
+    simp [hr, dcount, b2n]
+  · intro v0; simp [process, hp]
+  · intro r; simp [process]
 
-/-! ### the pinned code before the repairs: five negation witnesses (each replayed on the real code,
+/-- **a requested tree is still accepted, and the run waiting for it goes on**: in any state in which the
+tree R is requested, the legitimate tree response stores the tree, and EVERY message parked for it is
+given to its instance: exactly those of them reach the protocol that would have reached it had the tree
+been there (`dcount`), and nothing stays parked. -/
+theorem c07_requested_tree_unblocks (s : Srv) (h : s.slot .R = .requested) :
+    let s' := (process s legitResp).2
+    s'.slot .R = .present ∧ s'.parked .R = [] ∧
+    s'.delivered = s.delivered + ((s.parked .R).map (dcount s.doneMark)).sum := by
+  simp only [legitResp, process, sendTree, h, makeTree]
+  simp only [storeAndFlush]
+  have := flush_delivered (s.parked .R) { s with slot := upd s.slot .R .present, armed := upd s.armed .R false, parked := upd s.parked .R [], treeRo := upd s.treeRo .R .roR }
+  simp at this ⊢
+  refine ⟨?_, ?_, this.1⟩
+  · rw [this.2.1]; simp [upd]
+  · rw [this.2.2]; simp [upd]
+
+/-- … and this after any sequence of envelopes: either R is still requested (then the theorem above
+applies), or some envelope of the sequence delivered it, and then nothing is parked for it any more. -/
+theorem c07_requested_tree_after_any_sequence (es : List Env) (s0 : Srv) (hc : ParkedClean s0)
+    (hr : s0.slot .R ≠ .absent) :
+    let s := runEnvs s0 es
+    let s' := (process s legitResp).2
+    s'.slot .R = .present ∧ s'.parked .R = [] := by
+  have hpc := stable_parkedClean.run es s0 hc
+  have hne : (runEnvs s0 es).slot .R ≠ .absent := by
+    have : Stable (fun s => s.slot .R ≠ .absent) := by
+      constructor
+      · intro s t frm b h; unfold handOver; simp only; split <;> exact h
+      · intro s to h; unfold created; cases destOf to <;> exact h
+      · intro s t h; unfold clean; split <;> exact h
+      · intro s h _; exact ⟨h, h⟩
+      · intro s t h _; exact h
+      · intro s h; exact ⟨fun _ => h, h⟩
+      · intro s t h; exact h
+      · intro s t y h hs
+        refine ⟨h, fun _ => ?_⟩
+        simp only [upd]; split <;> simp [h]
+      · intro s t r h _
+        simp only [upd]; split <;> simp [h]
+      · intro s h; exact h
+      · intro s tm h; exact h
+      · intro s f h; exact h
+      · intro s d h; exact ⟨h, h⟩
+    exact this.run es s0 hr
+  simp only
+  generalize runEnvs s0 es = s at *
+  cases hs : s.slot .R with
+  | absent => exact absurd hs hne
+  | requested => exact ⟨(c07_requested_tree_unblocks s hs).1, (c07_requested_tree_unblocks s hs).2.1⟩
+  | present =>
+    have : (process s legitResp).2 = s := by simp [legitResp, process, sendTree, hs]
+    rw [this]; exact ⟨hs, hpc .R hs⟩
+
+/-! ### the storm of the harness (concurrent envelopes that list / unlist instances while the
+deprecated tree message looks through the listed instances) changes nothing but the done marks -/
+theorem c07_storm_only_marks (n : Nat) (s : Srv) (hK : s.slot .K = .present) (ho : s.other = true)
+    (hr : s.treeRo .K = .roK) :
+    let s' := runEnvs s (Drv.stormEnvs n)
+    s'.slot = s.slot ∧ s'.parked = s.parked ∧ s'.handed = s.handed ∧ s'.delivered = s.delivered ∧
+    s'.replies = s.replies ∧ s'.asks = s.asks ∧ s'.pendingTM = s.pendingTM ∧ s'.run = s.run ∧
+    s'.doneLive = s.doneLive ∧ s'.fresh = s.fresh ∧ s'.junkMarks = s.junkMarks + n := by
+  induction n generalizing s with
+  | zero => simp [Drv.stormEnvs, runEnvs]
+  | succ n ih =>
+    simp only [Drv.stormEnvs, runEnvs]
+    have uu : upd (upd s.armed .K false) .K false = upd s.armed .K false := by
+      funext x; simp only [upd]; split <;> rfl
+    have h1 : (process s (.proto (.badProtoNew .K) .member .m3)).2 =
+        { s with armed := upd s.armed .K false, junkMarks := s.junkMarks + 1 } := by
+      simp [process, treeOf, hK, transmitFound, deliver, created, destOf, clean, listedOn, ho, uu]
+    rw [h1]
+    have h2 : ∀ x : Srv, x.slot .K = .present → x.other = true → x.treeRo .K = .roK →
+        (process x (.treeMarshal ⟨.R, .roK, .emptyChildren⟩)).2 = x := by
+      intro x _ hxo hxr
+      simp only [process]
+      split
+      · rfl
+      · split
+        · rfl
+        · rename_i hreq
+          have hreq' : x.slot .R = .requested := by simpa using hreq
+          have : instanceRoster x .roK = true := by simp [instanceRoster, hxr, listedOn, hxo]
+          simp [this, sendTree, hreq', makeTree]
+    rw [h2 { s with armed := upd s.armed .K false, junkMarks := s.junkMarks + 1 } hK ho hr]
+    have := ih { s with armed := upd s.armed .K false, junkMarks := s.junkMarks + 1 } hK ho hr
+    simp only at this ⊢
+    obtain ⟨a, b, c, d, e, f, g, h, i, j, k⟩ := this
+    exact ⟨a, b, c, d, e, f, g, h, i, j, by omega⟩
+
+/-! ### the pinned code before the repairs: negation witnesses (each replayed on the real code,
 `notes/probes/onet_overlay_c07_probe_test.go.txt`, and kept as corpus cases) -/
-theorem c07_old_nil_destination : (processOld {} (.proto .none .member true true)).1 = .panic := by
+theorem c07_old_nil_destination : (processOld {} (.proto .none .member .m3)).1 = .panic := by
   simp [processOld]
-theorem c07_old_nil_sender : (processOld {} (.proto (.fresh .K) .none true true)).1 = .panic := by
+theorem c07_old_nil_sender : (processOld {} (.proto (.fresh .K) .none .m3)).1 = .panic := by
   simp [processOld, treeOf, creates]
 theorem c07_old_empty_description :
     (processOld {} (.respTree (some ⟨.R, .roR, .emptyChildren⟩) (some ⟨.roR, true, true⟩))).1 = .panic := by
@@ -240,10 +682,29 @@ theorem c07_old_roster_request_over_empty_slot : (processOld {} (.reqRoster .roK
 theorem c07_old_lock_left_held : (processOld {} (.sendRoster ⟨.roR, true, true⟩)).2.treeLock = 1 := by
   simp [processOld]
 
-/-! ### non-vacuity: the deprecated roster-then-tree path stores the requested tree -/
+/-! ### non-vacuity -/
+/-- the deprecated roster-then-tree path stores the requested tree and the parked run goes on -/
 example : (runEnvs {} [.treeMarshal ⟨.R, .roR, .good⟩, (.sendRoster ⟨.roR, true, true⟩)]).slot .R = .present ∧
     (runEnvs {} [.treeMarshal ⟨.R, .roR, .good⟩, (.sendRoster ⟨.roR, true, true⟩)]).delivered = 1 := by
-  simp [runEnvs, process, instanceRoster, makeTree, storeAndFlush, upd]
+  simp [runEnvs, process, instanceRoster, listedOn, makeTree, storeAndFlush, flush, transmitFound, deliver, created,
+    destOf, treeOf, handOver, reader, aggregated, handled, memberIsParent, upd]
+
+/-- a tree arrives for a message of a protocol the server does not have: no instance is listed, the
+removal of the tree is scheduled; a real run on it cancels the removal (`ListedSafe` is not vacuous) -/
+example :
+    let s := runEnvs {} [.proto (.badProto .U) .member .m3, .respTree (some ⟨.U, .roX, .good⟩) (some ⟨.roX, true, true⟩)]
+    s.slot .U = .present ∧ s.armed .U = true ∧ listedOn s .U = false ∧
+    (process s (.proto (.fresh .U) .member .m1)).2.armed .U = false ∧
+    (process s (.proto (.fresh .U) .member .m1)).2.delivered = 1 := by
+  simp [runEnvs, process, treeOf, sendTree, makeTree, storeAndFlush, flush, transmitFound, deliver, created, destOf,
+    clean, listedOn, handOver, reader, aggregated, handled, memberIsParent, nChildren, upd]
+
+/-- the instance side refuses: no sender, a sender of another server, an unknown sender, a type the
+protocol does not handle, an aggregated kind at a leaf from anybody but the parent -/
+example : reader .K .none .m3 = false ∧ reader .K .spoof .m3 = false ∧ reader .K .stranger .m4 = false ∧
+    reader .K .member .unhandled = false ∧ reader .K .stranger .m1 = false ∧ reader .U .stranger .m1 = false ∧
+    reader .U .member .m2 = true ∧ reader .K .member .m1 = true := by decide
+
 
 /-! ### the code regions the model stands for
 Regenerated from /repo's source on every run (`harness/cmd/astfacts` → `OnetVerif/Shapes.lean`): the
@@ -256,6 +717,31 @@ theorem c07_shape_Overlay_Process :
    ["MsgType.Equal", "o.handleConfigMessage", "protoIO.getByPacketType", "io.Unwrap",
      "o.handleRequestTree", "o.handleSendTree", "o.handleSendTreeMarshal",
      "o.handleRequestRoster", "o.handleSendRoster", "network.MessageType", "o.TransmitMsg"] := rfl
+
+theorem c07_shape_Overlay_TransmitMsg :
+    Shapes.overlay_Overlay_TransmitMsg =
+   ["treeStorage.getAndRefresh", "verifPoint:tm.miss", "o.requestTree", "verifPoint:tm.found",
+     "transmitMux.Lock", "defer:transmitMux.Unlock", "instancesLock.Lock", "To.ID", "To.ID",
+     "o.cleanTreeStorage", "instancesLock.Unlock", "o.TreeNodeFromTree",
+     "o.newTreeNodeInstanceFromToken", "treeStorage.Set", "To.ID", "o.getConfig",
+     "serviceManager.newProtocol", "instancesLock.Lock", "o.nodeDelete", "instancesLock.Unlock",
+     "go{", "defer{", "tni.Token", "ServiceFactory.Name", "}", "pi.Dispatch", "tni.Token",
+     "ServiceFactory.Name", "}", "o.RegisterProtocolInstance", "pi.ProcessProtocolMsg"] := rfl
+
+theorem c07_shape_Overlay_requestTree :
+    Shapes.overlay_Overlay_requestTree =
+   ["o.savePendingMsg", "verifPoint:rt.parked", "treeStorage.Get", "if:(tree!=nil)",
+     "o.checkPendingMessages", "return:nil", "verifPoint:rt.recheck-miss", "io.Wrap",
+     "if:(err!=nil)", "return:xerrors.Errorf(\"\",err)",
+     "if:o.treeStorage.IsRegistered(onetMsg.To.TreeID)", "return:nil",
+     "verifPoint:rt.unregistered", "treeStorage.Register", "verifPoint:rt.registered",
+     "server.Send", "if:(err!=nil)", "treeStorage.Unregister", "return:xerrors.Errorf(\"\",err)",
+     "return:nil"] := rfl
+
+theorem c07_shape_Overlay_checkPendingMessages :
+    Shapes.overlay_Overlay_checkPendingMessages =
+   ["go{", "verifPoint:cpm.start", "pendingMsgLock.Lock", "ID.Equal", "pendingMsgLock.Unlock",
+     "o.TransmitMsg", "verifPoint:cpm.done", "}"] := rfl
 
 theorem c07_shape_Overlay_handleSendTree :
     Shapes.overlay_Overlay_handleSendTree =
@@ -290,6 +776,14 @@ theorem c07_shape_Overlay_checkPendingTreeMarshal :
      "if:(o.treeStorage.Get(tm.TreeID)!=nil)", "tm.MakeTree", "if:(err!=nil)", "o.RegisterTree",
      "pendingTreeLock.Unlock"] := rfl
 
+theorem c07_shape_Overlay_nodeDelete :
+    Shapes.overlay_Overlay_nodeDelete =
+   ["token.ID", "tni.closeDispatch", "o.cleanTreeStorage"] := rfl
+
+theorem c07_shape_Overlay_cleanTreeStorage :
+    Shapes.overlay_Overlay_cleanTreeStorage =
+   ["if:inst.token.TreeID.Equal(token.TreeID)", "if:notUsed", "treeStorage.Remove"] := rfl
+
 theorem c07_shape_TreeMarshal_MakeTree :
     Shapes.tree_TreeMarshal_MakeTree =
    ["if:(ro==nil)", "return:nil,xerrors.New(\"\")", "if:!ro.ID.Equal(tm.RosterID)",
@@ -311,6 +805,34 @@ theorem c07_shape_treeStorage_GetRoster :
 theorem c07_shape_treeStorage_IsRequested :
     Shapes.treestorage_treeStorage_IsRequested =
    ["ts.Lock", "defer:ts.Unlock", "return:(ok&&(tree==nil))"] := rfl
+
+theorem c07_shape_TreeNodeInstance_dispatchMsgToProtocol :
+    Shapes.treenode_TreeNodeInstance_dispatchMsgToProtocol =
+   ["rx.add", "n.aggregate", "n.dispatchChannel", "n.dispatchHandler"] := rfl
+
+theorem c07_shape_TreeNodeInstance_aggregate :
+    Shapes.treenode_TreeNodeInstance_aggregate =
+   ["n.IsRoot", "n.Parent", "TreeNodeID.Equal",
+     "if:(fromParent||!n.hasFlag(mt,AggregateMessages))", "return:mt,?,true", "if:!ok",
+     "if:(len(msgs)==len(n.Children()))", "return:mt,msgs,true", "return:mt,nil,false"] := rfl
+
+theorem c07_shape_TreeNodeInstance_dispatchHandler :
+    Shapes.treenode_TreeNodeInstance_dispatchHandler =
+   ["n.hasFlag", "to.Elem", "n.createValueAndVerify", "msgs.Index", "Index().Set", "f.Call",
+     "errV.IsValid", "errV.IsNil", "n.createValueAndVerify", "f.Call", "errV.IsNil"] := rfl
+
+theorem c07_shape_TreeNodeInstance_dispatchChannel :
+    Shapes.treenode_TreeNodeInstance_dispatchChannel =
+   ["defer{", "}", "n.hasFlag", "to.Elem", "to.Elem", "n.createValueAndVerify", "out.Index",
+     "Index().Set", "to.Elem", "n.createValueAndVerify", "out.Len", "out.Cap",
+     "msgDispatchQueueMutex.Lock", "msgDispatchQueueMutex.Unlock", "out.Send"] := rfl
+
+theorem c07_shape_TreeNodeInstance_createValueAndVerify :
+    Shapes.treenode_TreeNodeInstance_createValueAndVerify =
+   ["n.Tree", "if:(t!=nil)", "tr.Search", "if:(tn==nil)", "return:m,xerrors.New(\"\")",
+     "m.Field", "Field().Set", "m.Field", "Field().Set",
+     "if:(((msg.ServerIdentity!=nil)&&(tn!=nil))&&!tn.ServerIdentity.Equal(msg.ServerIdentity))",
+     "return:m,xerrors.Errorf(\"\",tn.ServerIdentity,msg.ServerIdentity)", "return:m,nil"] := rfl
 
 
 end C07
